@@ -18,6 +18,7 @@ type Cfg struct {
 	HType   int    `json:"htype,omitempty"`    // nameaddr: header kind passed to ParseNameAddrPVal
 	FlagsLate uint `json:"flags_late,omitempty"` // msg: from call number LateFrom on (counted per message) these flags are passed instead of Flags
 	LateFrom  int  `json:"late_from,omitempty"`  // 0 = the flags never change between the calls of one message
+	Frag    bool   `json:"frag,omitempty"`     // msg: this use of the object parses a bare header block (ParseHeaders on the message's own HL / PV, as for a sipfrag body) instead of a whole message
 	HBMask  uint8  `json:"hb_mask,omitempty"`  // hdrline/headers: a caller's own PHBodies whose getters return nil for these kinds (bit order: From To Call-ID CSeq Content-Length Contacts Expires PAIs)
 	NoHB    bool   `json:"no_hb,omitempty"`    // hdrline/headers: pass a nil PHBodies (generic value parsing only)
 }
@@ -280,7 +281,29 @@ func (d *MsgD) flags(eof bool) uint8 {
 }
 
 func (d *MsgD) Call(buf []byte, offs int, eof bool) (int, sipsp.ErrorHdr) {
+	if d.cfg.Frag {
+		// another exported entry point on the same object: the header block parser fills the
+		// message's header list and header values directly
+		return sipsp.ParseHeaders(buf, offs, &d.M.HL, &d.M.PV)
+	}
 	return sipsp.ParseSIPMsg(buf, offs, &d.M, d.flags(eof))
+}
+
+// Adopt takes over the per-use settings of the next user of this object (which entry point it
+// calls, with which flags); the arrays stay as they are.
+func (d *MsgD) Adopt(c Cfg) {
+	d.cfg.Frag, d.cfg.Flags, d.cfg.EOFFlag = c.Frag, c.Flags, c.EOFFlag
+	d.cfg.LateFrom, d.cfg.FlagsLate = c.LateFrom, c.FlagsLate
+}
+
+// Poke: user code may register a first-of-type header itself (HdrLst.SetHdr is exported); a later
+// reset / init has to forget it like everything else.
+func (d *MsgD) Poke(n int) {
+	var h sipsp.Hdr
+	h.Type = sipsp.HdrT(1 + n%13)
+	h.Name.Set(0, 1)
+	h.Val.Set(1, 2)
+	d.M.HL.SetHdr(&h)
 }
 
 func (d *MsgD) Snap(r *Rec, buf []byte) { SnapMsg(r, &d.M, buf) }
@@ -449,6 +472,13 @@ func (d *HeadersD) Call(buf []byte, offs int, eof bool) (int, sipsp.ErrorHdr) {
 		return sipsp.ParseHeaders(buf, offs, &d.HL, nil)
 	}
 	return sipsp.ParseHeaders(buf, offs, &d.HL, hbFor(&d.cfg, &d.PV))
+}
+func (d *HeadersD) Poke(n int) {
+	var h sipsp.Hdr
+	h.Type = sipsp.HdrT(1 + n%13)
+	h.Name.Set(0, 1)
+	h.Val.Set(1, 2)
+	d.HL.SetHdr(&h)
 }
 func (d *HeadersD) Snap(r *Rec, buf []byte) {
 	SnapHdrLst(r, &d.HL)
@@ -801,11 +831,31 @@ func valsFor(n int) []sipsp.PFromBody {
 // Init()/Reset() is documented to clean what it detaches) and a later init
 // operation of a matching size gets it again.
 type arrayPool struct {
-	hdrs map[int][]sipsp.Hdr
-	vals map[int][]sipsp.PFromBody
+	hdrs   map[int][]sipsp.Hdr
+	vals   map[int][]sipsp.PFromBody
+	shared *arrayPool // when set, arrays go to and come from this pool (one per simulated receiver process)
+}
+
+// SharedPool is a pool of caller arrays that several parser objects of one receiver draw from: what
+// one object's init operation detaches may be attached to another object next.
+type SharedPool = arrayPool
+
+// UsePool makes the driver recycle its caller arrays through sp (drivers without arrays ignore it).
+func UsePool(d Driver, sp *SharedPool) {
+	switch x := d.(type) {
+	case *MsgD:
+		x.pool.shared = sp
+	case *HeadersD:
+		x.pool.shared = sp
+	case *ContactsD:
+		x.pool.shared = sp
+	}
 }
 
 func (p *arrayPool) takeHdrs(n int) []sipsp.Hdr {
+	if p.shared != nil {
+		return p.shared.takeHdrs(n)
+	}
 	if n < 0 {
 		return nil
 	}
@@ -817,6 +867,9 @@ func (p *arrayPool) takeHdrs(n int) []sipsp.Hdr {
 }
 
 func (p *arrayPool) takeVals(n int) []sipsp.PFromBody {
+	if p.shared != nil {
+		return p.shared.takeVals(n)
+	}
 	if n < 0 {
 		return nil
 	}
@@ -828,6 +881,10 @@ func (p *arrayPool) takeVals(n int) []sipsp.PFromBody {
 }
 
 func (p *arrayPool) give(h []sipsp.Hdr, v []sipsp.PFromBody) {
+	if p.shared != nil {
+		p.shared.give(h, v)
+		return
+	}
 	if p.hdrs == nil {
 		p.hdrs, p.vals = map[int][]sipsp.Hdr{}, map[int][]sipsp.PFromBody{}
 	}
@@ -841,6 +898,7 @@ func (p *arrayPool) give(h []sipsp.Hdr, v []sipsp.PFromBody) {
 
 func (d *MsgD) Reinit(c Cfg) {
 	d.callNo = 0
+	d.Adopt(c)
 	if c.HdrCap == -2 || d.cfg.HdrCap == -2 {
 		d.M.Reset()
 		return
